@@ -8,6 +8,8 @@ Layout: SEGS maps a segment name to (parts, cases, check):
   parts(thorough)        -> list of JSON-able part descriptors (the unit of parallel work)
   cases(part, thorough)  -> iterator over JSON-able cases of that part
   check(case, k)         -> runs the case against pox, records observations / failed clauses in k
+Segments: v4ctor, v4net, v6val, v6net, v6text, bad (malformed input), eth, dpid, law (comparison laws, immutability),
+odd (comparison with non-address operands), cross (comparison between address families).
 A recorded violation carries {seg, case}; replay() just calls check(case) again.
 """
 import itertools, os, struct, sys, traceback
@@ -172,13 +174,31 @@ def chk_v4ctor (case, k):
 # -- networks, CIDR, netmasks ---------------------------------------------------------
 V4_OTHER = [0x00000000, 0x0a000000, 0x7f000000, 0x80000000, 0xc0a80100, 0xfffffffe]
 
-def v4net_cases (part, octs):
+def v4net_cases (part, octs, th=False):
   for c in v4_cases(part, octs):
     for b in range(33):
-      yield c + [b]
+      yield c + [b] + ([1] if th else [])      # a 6th element = thorough tier: every probe through every call form
+
+def _hostnets (k, clause, full, forms, quick_forms, probes):
+  """A network written with host bits set (interface style, '10.0.0.1/8'): refusing it is fine (ipaddress.ip_network
+  does so by default); an answer must be the membership in the network the prefix selects (ip_network(..., strict=False)).
+  forms x probes; in the quick tier the 2nd and later probes only go through the forms listed in quick_forms."""
+  for pi, (p, pt, want) in enumerate(probes):
+    for fi, (fam, text, f) in enumerate(forms):
+      if pi and not full and fi not in quick_forms: continue
+      k.evals += 1; k.calls += 1
+      try:
+        r = f(p)
+      except Exception:
+        k.obs.append("rej"); continue
+      k.obs.append(r)
+      if r is not want:
+        k.bad("%s-host-bits-misanswered:%s" % (clause, fam),
+              "%s.%s = %r; the network has host bits set: expected a refusal or %r (membership in the network the prefix selects)" % (pt, text, r, want))
+
 
 def chk_v4net (case, k):
-  n = R.v4_int(case[:4]); b = case[4]
+  n = R.v4_int(case[:4]); b = case[4]; full = len(case) > 5
   M = R.v4_mask(b); N = n & M
   at, nt, mt = R.v4_text(n), R.v4_text(N), R.v4_text(M)
   IP = A.IPAddr
@@ -223,6 +243,19 @@ def chk_v4net (case, k):
     # ipaddress.ip_network(hostcidr) (strict) refuses this as well
     k.rej("ipv4-net:parse_cidr-host-bits-accepted", ("parse_cidr('%s') (host bits set)", hostcidr), A.parse_cidr, hostcidr)
     k.rej("ipv4-net:parse_cidr-host-bits-accepted", ("parse_cidr('%s/%s') (host bits set)", at, mt), A.parse_cidr, at + "/" + mt)
+    # the same network text / tuple through every membership call form: refused, or answered as the network it denotes
+    aobj = IP(R.v4_raw(n))
+    X = n ^ (1 << (32 - b)) if b else None   # differs in the last network bit -> not a member (none exists for /0)
+    forms = (("text", "inNetwork('%s/%d')" % (at, b), lambda p: p.inNetwork(hostcidr)),
+             ("text", "inNetwork('%s/%s')" % (at, mt), lambda p: p.inNetwork(at + "/" + mt)),
+             ("text", "inNetwork('%s', %d)" % (at, b), lambda p: p.inNetwork(at, b)),
+             ("text", "inNetwork('%s', '%s')" % (at, mt), lambda p: p.in_network(at, mt)),
+             ("text", "inNetwork(IPAddr('%s'), %d)" % (at, b), lambda p: p.inNetwork(aobj, b)),
+             ("tuple", "inNetwork(('%s', %d))" % (at, b), lambda p: p.inNetwork((at, b))),
+             ("tuple", "inNetwork((IPAddr('%s'), %d))" % (at, b), lambda p: p.in_network((aobj, b))))
+    _hostnets(k, "ipv4-net:inNetwork", full, forms, (0, 6),
+              [(a, "IPAddr('%s')" % at, R.v4_contains(N, b, n)), (IP(R.v4_raw(N)), "IPAddr('%s')" % nt, R.v4_contains(N, b, N))] +
+              ([(IP(R.v4_raw(X)), "IPAddr('%s')" % R.v4_text(X), R.v4_contains(N, b, X))] if b else []))
   # prefix length <-> netmask
   k.eq("ipv4-net:cidr_to_netmask", ("cidr_to_netmask(%d)", b), ("IPAddr", R.v4_raw(M)), lambda: raw_of(A.cidr_to_netmask(b)))
   k.eq("ipv4-net:netmask_to_cidr", ("netmask_to_cidr('%s')", mt), b, A.netmask_to_cidr, mt)
@@ -252,7 +285,7 @@ SEGS = {}
 SEGS["v4ctor"] = (lambda th: v4_parts(OCT_T_CTOR if th else OCT_Q),
                   lambda part, th: v4_cases(part, OCT_T_CTOR if th else OCT_Q), chk_v4ctor)
 SEGS["v4net"] = (lambda th: v4_parts(OCT_T_NET if th else OCT_Q),
-                 lambda part, th: v4net_cases(part, OCT_T_NET if th else OCT_Q), chk_v4net)
+                 lambda part, th: v4net_cases(part, OCT_T_NET if th else OCT_Q, th), chk_v4net)
 
 
 # ------------------------------------------------------------------------------------
@@ -324,6 +357,17 @@ def chk_v6val (case, k):
       k.obs.append("rej"); continue
     if r != raw:
       k.bad("ipv6-text-value:" + form, "IPAddr6(%r).raw = %s, expected %s" % (t, r.hex(), raw.hex()))
+  # the same text as bytes (EthAddr and IPAddr read bytes as text): judged for its value only when accepted, and not
+  # when it is 16 bytes long (then it may as well be meant as a raw address)
+  for form, t in texts[:5]:
+    if len(t) == 16: continue
+    k.evals += 1; k.calls += 1
+    try:
+      r = I6(t.encode()).raw
+    except Exception:
+      k.obs.append("bytes-text-rej"); continue
+    if r != raw:
+      k.bad("ipv6-text-value:bytes-" + form, "IPAddr6(%r).raw = %s, expected %s" % (t.encode(), r.hex(), raw.hex()))
   # binary forms
   k.eq("ipv6-ctor:raw-flag", ("IPAddr6(%r, raw=True).raw", raw), raw, lambda: I6(raw, raw=True).raw)
   k.eq("ipv6-ctor:from_raw", ("IPAddr6.from_raw(%r).raw", raw), raw, lambda: I6.from_raw(raw).raw)
@@ -371,16 +415,20 @@ def chk_v6val (case, k):
 V6_OTHER = [0, 0x2001 << 112, 0xfe80 << 112, 1 << 127, 0xffff << 32, (1 << 128) - 2]
 
 def v6net_cases (part, th):
+  # last element: how far the host-bit network forms go: 2 = every probe through every call form (thorough), 1 = the quick
+  # subset of probe x form (see _hostnets), 0 = left out (quick tier, group values other than ffff: the ffff patterns have
+  # host bits wherever a group lies behind the prefix and reach every prefix length)
+  lvl = 2 if th else (1 if part[0] == "extra" or part[1] == 0xffff else 0)
   for g in v6_values(part):
     for b in range(129):
-      yield g + [b]
+      yield g + [b, lvl]
 
 def _pc6 (f, *a, **kw):
   r = f(*a, **kw)
   return (raw_of(r[0]), r[1])
 
 def chk_v6net (case, k):
-  g = case[:8]; b = case[8]
+  g = case[:8]; b = case[8]; lvl = case[9]
   n = R.v6_int(g); M = R.v6_mask(b); N = n & M
   at, nt, mt = R.v6_fmt(n), R.v6_fmt(N), R.v6_fmt(M)
   I6 = A.IPAddr6
@@ -413,6 +461,18 @@ def chk_v6net (case, k):
        _pc6, I6.parse_cidr, hostcidr, allow_host=True)
   if n != N:
     k.rej("ipv6-net:parse_cidr-host-bits-accepted", ("IPAddr6.parse_cidr('%s') (host bits set)", hostcidr), I6.parse_cidr, hostcidr)
+  if n != N and lvl:
+    X = n ^ (1 << (128 - b)) if b else None      # differs in the last network bit -> not a member (none exists for /0)
+    forms = (("text", "in_network('%s/%d')" % (at, b), lambda p: p.in_network(hostcidr)),
+             ("text", "in_network('%s/%s')" % (at, mt), lambda p: p.in_network(at + "/" + mt)),
+             ("text", "in_network('%s', %d)" % (at, b), lambda p: p.in_network(at, b)),
+             ("text", "in_network('%s', '%s')" % (at, mt), lambda p: p.in_network(at, mt)),
+             ("text", "in_network(IPAddr6('%s'), %d)" % (at, b), lambda p: p.in_network(a, b)),
+             ("tuple", "in_network(('%s', %d))" % (at, b), lambda p: p.in_network((at, b))),
+             ("tuple", "in_network((IPAddr6('%s'), %d))" % (at, b), lambda p: p.in_network((a, b))))
+    _hostnets(k, "ipv6-net:in_network", lvl > 1, forms, (0, 6),
+              [(a, "IPAddr6('%s')" % at, R.v6_contains(N, b, n)), (netobj, "IPAddr6('%s')" % nt, R.v6_contains(N, b, N))] +
+              ([(I6.from_raw(R.v6_raw(X)), "IPAddr6('%s')" % R.v6_fmt(X), R.v6_contains(N, b, X))] if b else []))
   # prefix length <-> netmask
   okk, r = k.get("ipv6-net:cidr_to_netmask", ("IPAddr6.cidr_to_netmask(%d)", b), I6.cidr_to_netmask, b)
   if okk:
@@ -503,6 +563,11 @@ JUNK6 = ["0x1", "+1", "-0", "-1", " 1", "1 ", "1_0", "00001", "10000", "fffff", 
 BASE6 = ["1:2:3:4:5:6:7:8", "1::8", "::1", "1::", "::ffff:1.2.3.4", "1:2:3:4:5:6:1.2.3.4", "1:2::7:8"]
 BADTAIL = ["1.2.3", "1.2.3.4.5", "256.2.3.4", "1.2.3.-4", "1..3.4", "1.2.3.4 x", "1.2.3.4x", ".1.2.3", "1.2.3.", "a.b.c.d"]
 
+# a prefix length that is not a plain run of ASCII decimal digits (what int() tolerates: blanks, sign, underscores, non-ASCII
+# digits; other number syntaxes); every entry reads as 8, 16 or 0 once the junk is ignored, so only the spelling is wrong
+PFX_JUNK = [" 8", "8 ", "\t8", "8\n", "\n8", "8\r\n", " 8 ", "+8", "-0", "+0", "1_6", "0_8", "\u0668", "\uff18", "\u0661\u0666", "0x8", "0o10", "0b1000",
+            "8.", "8,", "8;", "8e0", "8L", "(8)"]
+
 def bad_cases (part, th):
   kind = part[0]
   if kind == "v6":
@@ -528,6 +593,8 @@ def bad_cases (part, th):
       yield ["v6cidr", s, cls]
     for ln in (0, 1, 4, 15, 17, 32):
       yield ["v6raw", ln]
+    for j in PFX_JUNK:
+      yield ["v6pfx", j]
   elif kind == "v4":
     for pos in range(4):
       for j in ("256", "999", "-1", "", "a", "1a", "+1", "1e1", "٣"):
@@ -544,6 +611,8 @@ def bad_cases (part, th):
       yield ["v4cidr", s, cls]
     for ln in (0, 1, 2, 3, 5, 8):
       yield ["v4raw", ln]
+    for j in PFX_JUNK:
+      yield ["v4pfx", j]
     for v in ("None", "1.5", "[1,2,3,4]"):
       yield ["v4type", v]
   elif kind == "eth":
@@ -622,6 +691,34 @@ def chk_bad (case, k):
     cls = case[2]
     k.rej("ipv4-cidr-accepts:" + cls, ("parse_cidr(%r, allow_host=True)", s), lambda: A.parse_cidr(s, allow_host=True))
     k.rej("ipv4-cidr-accepts:" + cls, ("IPAddr('0.0.0.0').inNetwork(%r)", s), lambda: A.IPAddr("0.0.0.0").inNetwork(s))
+  elif kind in ("v4pfx", "v6pfx"):
+    j = case[1]
+    import ipaddress
+    v4 = kind == "v4pfx"
+    cl = ("ipv4" if v4 else "ipv6") + "-cidr-accepts:prefix-not-decimal-digits"
+    for net in (("0.0.0.0", "10.0.0.0") if v4 else ("::", "fe80::")):
+      t = net + "/" + j
+      try: ipaddress.ip_network(t)
+      except ValueError: pass
+      else: raise RuntimeError("harness: the stdlib reads %r as a network" % t)
+      if v4:
+        p = A.IPAddr("10.0.0.0")
+        k.rej(cl, ("parse_cidr(%r)", t), lambda: A.parse_cidr(t))
+        k.rej(cl, ("parse_cidr(%r, infer=False)", t), lambda: A.parse_cidr(t, infer=False))
+        k.rej(cl, ("parse_cidr(%r, allow_host=True)", t), lambda: A.parse_cidr(t, allow_host=True))
+        k.rej(cl, ("IPAddr.parse_cidr(%r)", t), lambda: A.IPAddr.parse_cidr(t))
+        k.rej(cl, ("IPAddr('10.0.0.0').inNetwork(%r)", t), lambda: p.inNetwork(t))
+        k.rej(cl, ("IPAddr('10.0.0.0').inNetwork(%r, %r)", net, j), lambda: p.inNetwork(net, j))
+        k.rej(cl, ("IPAddr('10.0.0.0').in_network(IPAddr(%r), %r)", net, j), lambda: p.in_network(A.IPAddr(net), j))
+      else:
+        p = A.IPAddr6("fe80::")
+        k.rej(cl, ("IPAddr6.parse_cidr(%r)", t), lambda: A.IPAddr6.parse_cidr(t))
+        k.rej(cl, ("IPAddr6.parse_cidr(%r, allow_host=True)", t), lambda: A.IPAddr6.parse_cidr(t, allow_host=True))
+        k.rej(cl, ("IPAddr6('fe80::').in_network(%r)", t), lambda: p.in_network(t))
+        k.rej(cl, ("IPAddr6('fe80::').in_network(%r, %r)", net, j), lambda: p.in_network(net, j))
+        k.rej(cl, ("IPAddr6('fe80::').in_network(IPAddr6(%r), %r)", net, j), lambda: p.in_network(A.IPAddr6(net), j))
+    if v4:
+      k.rej(cl, ("IPAddr('10.1.2.3').get_network(%r)", j), lambda: A.IPAddr("10.1.2.3").get_network(j))
   elif kind == "v4raw":
     b = bytes(range(1, case[1] + 1))
     k.rej("ipv4-binary-accepts:wrong-length", ("IPAddr(%r)", b), lambda: A.IPAddr(b))
@@ -897,6 +994,20 @@ def chk_law (case, k):
       k.calls += 3
       if a.raw != ra or hash(a) != h or str(a) != s:
         k.bad("immutable:value-changed:" + t, "after setattr(%s, %r, ...) the address reads %s (raw %s)" % (s, attr, a, a.raw.hex()))
+    # deleting an attribute is the other ordinary way to change an object (a fresh object each time: a deletion that
+    # goes through leaves the address unusable)
+    for attr in ("_value", "raw", "value", "x"):
+      a2, _ = law_elem(t, case[2])
+      k.evals += 1; k.calls += 1
+      try:
+        delattr(a2, attr)
+        k.bad("immutable:delattr:" + t, "del <%s>.%s succeeded" % (s, attr))
+      except (TypeError, AttributeError):
+        pass
+      k.calls += 3
+      try: same = (a2.raw == ra and hash(a2) == h and str(a2) == s)
+      except Exception as e: same = False
+      if not same: k.bad("immutable:delattr:" + t, "after del <%s>.%s the address no longer reads as before" % (s, attr))
     k.evals += 1
     if type(a.raw) is not bytes: k.bad("immutable:raw-type:" + t, "%r.raw is a %s" % (a, type(a.raw).__name__))
     # the address must not alias a mutable object it was built from
@@ -1038,10 +1149,116 @@ SEGS["odd"] = (odd_parts, odd_cases, chk_odd)
 
 
 # ------------------------------------------------------------------------------------
+# comparisons between address objects of different families
+# ------------------------------------------------------------------------------------
+WIDTH = {"IPAddr": 4, "EthAddr": 6, "IPAddr6": 16}
+
+_REL = {}
+
+def from_raw (t, raw):
+  if t == "IPAddr": return A.IPAddr(raw)
+  if t == "EthAddr": return A.EthAddr(raw)
+  return A.IPAddr6.from_raw(raw)
+
+def cross_related (ra, t2):
+  """Values (raw) of family t2 that an address with bytes ra of another family could be converted to or confused with:
+  ra embedded at either end of the wider address under every boundary filler (zeros, ones, the ::ffff: 'mapped' marker and
+  its near misses), or every window of ra of the narrower width; then the family's own comparison set."""
+  if (ra, t2) in _REL: return _REL[(ra, t2)]
+  W = WIDTH[t2]; w = len(ra); out = []
+  if W > w:
+    g = W - w
+    for pre in (b"\x00" * g, b"\xff" * g, b"\x00" * (g - 2) + b"\xff\xff", b"\x00" * (g - 2) + b"\xff\xfe", b"\x00" * (g - 2) + b"\xfe\xff",
+                b"\x00" * (g - 1) + b"\x01", b"\x80" + b"\x00" * (g - 1), b"\x00" * (g - 2) + b"\x00\xff", b"\x00" * (g - 2) + b"\xff\x00"):
+      out.append(pre + ra)
+    if g >= 4:
+      out.append(b"\x00" * (g - 4) + b"\xff\xff\x00\x00" + ra)
+      out.append(b"\x00" * (g - 4) + b"\x00\x01\x00\x00" + ra)
+    for post in (b"\x00" * g, b"\xff" * g, b"\x00" * (g - 1) + b"\x01"):
+      out.append(ra + post)
+    out.append(b"\x00" * (g // 2) + ra + b"\x00" * (g - g // 2))
+    out.append((b"\x00" * g + ra)[::-1])
+  else:
+    for off in range(w - W + 1):
+      out.append(ra[off:off + W])
+    out.append(ra[:W][::-1]); out.append(ra[-W:][::-1])
+  for i in range(0, 40, 2):
+    out.append(law_elem(t2, i)[1])
+  seen = []
+  for r in out:
+    if r not in seen: seen.append(r)
+  _REL[(ra, t2)] = seen
+  return seen
+
+def cross_parts (th):
+  return [[t1, t2] for t1 in LAW_TYPES for t2 in LAW_TYPES if t1 != t2]
+
+def cross_cases (part, th):
+  t1, t2 = part
+  for i in range(40):
+    n = len(cross_related(law_elem(t1, i)[1], t2))
+    for j in range(n): yield ["pair", t1, i, t2, j]
+    yield ["group", t1, i, t2]
+
+def chk_cross (case, k):
+  kind, t1, i, t2 = case[:4]
+  a, ra = law_elem(t1, i)
+  rel = cross_related(ra, t2)
+  fam = "/".join(sorted((t1, t2)))
+  if kind == "pair":
+    rb = rel[case[4]]; b = from_raw(t2, rb)
+    d = "a=%r, b=%r" % (a, b)
+    eq = _cmp(k, "eq", fam, "a == b for " + d, lambda: a == b)
+    ne = _cmp(k, "ne", fam, "a != b for " + d, lambda: a != b)
+    req = _cmp(k, "eq", fam, "b == a for " + d, lambda: b == a)
+    rne = _cmp(k, "ne", fam, "b != a for " + d, lambda: b != a)
+    k.evals += 3
+    res = [eq, ne, req, rne]
+    if None in res: k.obs.append(res); return
+    if ne != (not eq) or rne != (not req):
+      k.bad("compare-cross:ne-negation:" + fam, "(a==b, a!=b, b==a, b!=a) = %r for %s" % ((eq, ne, req, rne), d))
+    if eq != req:
+      k.bad("compare-cross:reflected:" + fam, "(a == b) is %s but (b == a) is %s for %s" % (eq, req, d))
+    o = {}
+    for name, f in (("a<b", lambda: a < b), ("a<=b", lambda: a <= b), ("a>b", lambda: a > b), ("a>=b", lambda: a >= b),
+                    ("b<a", lambda: b < a), ("b<=a", lambda: b <= a), ("b>a", lambda: b > a), ("b>=a", lambda: b >= a)):
+      o[name] = _ord(k, fam, "%s for %s" % (name, d), f)
+    res += [o[n] for n in sorted(o)]
+    k.evals += 2
+    # the two spellings of one question give one answer (or one refusal)
+    for x, y in (("a<b", "b>a"), ("a<=b", "b>=a"), ("a>b", "b<a"), ("a>=b", "b<=a")):
+      if o[x] != o[y]:
+        k.bad("compare-cross:converse:" + fam, "(%s) is %s but (%s) is %s for %s" % (x, o[x], y, o[y], d))
+    if all(type(v) is bool for v in o.values()):
+      lt, le, gt, ge = o["a<b"], o["a<=b"], o["a>b"], o["a>=b"]
+      if (lt, eq, gt).count(True) != 1 or le != (lt or eq) or ge != (gt or eq):
+        k.bad("compare-cross:order-vs-eq:" + fam, "(a<b, a<=b, a==b, a>=b, a>b) = %r for %s" % ((lt, le, eq, ge, gt), d))
+    elif eq and (o["a<=b"] is False or o["a>=b"] is False or o["a<b"] is True or o["a>b"] is True):
+      k.bad("compare-cross:order-vs-eq:" + fam, "a == b but (a<b, a<=b, a>=b, a>b) = %r for %s" % ((o["a<b"], o["a<=b"], o["a>=b"], o["a>b"]), d))
+    if eq:
+      k.calls += 2
+      res.append(hash(a) == hash(b))       # observed, not judged: across families == is a conversion convenience (DESIGN.md C16)
+    k.obs.append(res)
+  else:
+    # an address equal to two addresses of the other family makes those two equal
+    objs = [(from_raw(t2, rb), rb) for rb in rel]
+    k.calls += 2 * len(objs); k.evals += 1
+    same = [(b, rb) for b, rb in objs if (a == b) is True or (b == a) is True]
+    k.obs.append([rb.hex() for b, rb in same])
+    for x in range(len(same)):
+      for y in range(x + 1, len(same)):
+        k.calls += 1
+        if same[x][1] != same[y][1] or (same[x][0] == same[y][0]) is not True:
+          k.bad("compare-cross:eq-not-transitive:" + fam, "%r equals both %r and %r, which differ" % (a, same[x][0], same[y][0]))
+
+SEGS["cross"] = (cross_parts, cross_cases, chk_cross)
+
+
+# ------------------------------------------------------------------------------------
 # driver
 # ------------------------------------------------------------------------------------
-COARSE = ("v4net", "v6net")     # outcome digests of these segments omit the address-specific values (memory)
-SEG_ORDER = ["v4ctor", "v4net", "v6val", "v6net", "v6text", "bad", "eth", "dpid", "law", "odd"]
+COARSE = {"v4net": 4, "v6net": 8}     # outcome digests of these segments omit the address-specific values (memory); index of the prefix length
+SEG_ORDER = ["v4ctor", "v4net", "v6val", "v6net", "v6text", "bad", "eth", "dpid", "law", "odd", "cross"]
 
 def _worker (item):
   seg, part, th = item
@@ -1059,7 +1276,7 @@ def _worker (item):
     ncases += 1
     rep.evaluations += k.evals
     rep.transitions += k.calls
-    rep.outcome((seg, case[-1], [x if isinstance(x, (bool, int)) else type(x).__name__ for x in k.obs]) if seg in COARSE else (seg, k.obs))
+    rep.outcome((seg, case[COARSE[seg]], [x if isinstance(x, (bool, int)) else type(x).__name__ for x in k.obs]) if seg in COARSE else (seg, k.obs))
     for key, what in k.viol:
       rep.violation(key, what, dict(seg=seg, case=case, key=key))
     if ncases == 1 and (part == parts(th)[0] or part == parts(th)[-1]):
@@ -1089,7 +1306,13 @@ def run (cfg):
     "IPv6 text grammar: every string of 0..9 groups over %s with '::' at each position or absent, with and without an IPv4 tail (accept/reject and value vs "
     "ipaddress); enumerated malformed texts / lengths / types for all three address types, CIDR strings and dpids (must raise); EthAddr: %s x 13 textual/binary "
     "forms + short-group form, all flag predicates; dpid: every id with bytes in %s, 4 printers x 5 accepted spellings; comparison with odd operands: 4 addresses per type x ~750 operands (None, ints, float, empty/wrong-length containers, bytes of length 0..20, every str and bytes of length 0..4 over {:,.,0,g}, junk texts, own text) x {==, !=, <, <=, >, >= in both operand orders, in, count}; comparison laws over all ordered pairs "
-    "and triples of a 40-element set (20 values x 2 construction forms) per type, ==None, setattr, container behaviour. distinct = digests of the per-case "
+    "and triples of a 40-element set (20 values x 2 construction forms) per type, ==None, setattr and delattr, container behaviour; "
+    "networks written with host bits set (every lattice address x every prefix length that leaves host bits; IPv6 quick tier: the ffff patterns and the hand-picked values) "
+    "through 7 membership call forms (text/prefix, text/netmask, two-argument by bits / by mask / with an address object, tuple of text, tuple of object) x 3 probes "
+    "(the address itself, the network address, the address with the last network bit flipped; quick tier: first probe through all forms, the others through 2) - refused or "
+    "answered as ip_network(strict=False) would; %d prefix-length spellings that are not plain ASCII digits x 2 networks x 5-7 parsing entry points per family (must raise); "
+    "comparisons across families: each of the 40 elements of a family x {its bytes embedded in / cut out of the other family's width under 9-16 fillers and alignments, "
+    "the other family's 20 values} x {==, != both orders, 8 orderings} for all 6 ordered family pairs + equality classes across families. distinct = digests of the per-case "
     "observation vectors"
     % (len(OCT_T_CTOR if th else OCT_Q), (OCT_T_CTOR if th else OCT_Q), (OCT_T_NET if th else OCT_Q),
        ("3^8 group vectors over {0,1,abcd} + 256 zero/non-zero patterns x {ffff,0db8} + %d hand-picked" % len(V6_EXTRA)) if th else
@@ -1097,14 +1320,16 @@ def run (cfg):
        (TOK_T if th else TOK_Q),
        ("first byte 0..255 x last byte 0..255 x 2 middles + {00,01,0f,10,80,ff}^6" if th else
         "first byte 0..255, last byte 0..255 (each with 2 fixed remainders), {00,0a,10,ff}^6, near-misses of 01:80:c2:00:00:0x"),
-       list(DP_T if th else DP_Q)))
+       list(DP_T if th else DP_Q), len(PFX_JUNK)))
   rep.bound = dict(tier=cfg.tier, ipv4_octets=len(OCT_T_CTOR if th else OCT_Q), prefix_lengths_v4=33, prefix_lengths_v6=129,
                    ipv6_text_groups_max=9, ipv6_text_tokens=len(TOK_T if th else TOK_Q), compare_set=40,
                    cases=dict((s, rep.extra.get("cases_" + s, 0)) for s in segs))
   rep.assumptions = [
     "little-endian host: 'network order' integers are the 4 address bytes read as a native uint32 (sys.byteorder is used, not assumed)",
     "forms that inet_aton accepts by tradition (fewer than 4 parts, octal/hex parts) are not called malformed for IPv4 text; they are for the dotted tail of IPv6 text (RFC 4291 requires d.d.d.d)",
-    "cross-type equality (address == str/int/other family) is a documented convenience and not judged; == None is judged",
+    "cross-type equality (address == str/int/other family) is a documented convenience: which operands compare equal is not judged, nor is hash equality across types; what is judged for every operand is that == and != are negations, that a == x and x == a agree, that the two spellings of an ordering (a<x, x>a) agree, that ordering agrees with equality when it answers, and that one address does not equal two different addresses of another family; == None is judged",
+    "a network given with host bits set may be refused or read as the network its prefix selects; any other answer is a mis-parse",
+    "IPv6 text as bytes is judged for its value only when accepted (the statement speaks of accepted forms)",
     "ordering is only required to be a total order consistent with ==; numeric order of IPAddr is not demanded",
     "== / != with any operand never raise and are each other's negation; == must be False only for operands that cannot represent an address of the type (conservative reference); ordering against a foreign operand may give a bool or raise TypeError, nothing else; which exception type a constructor uses to reject malformed input is not judged",
     "pox's short-group Ethernet text (x:x:x:x:x:x) is judged for value only when accepted",
